@@ -109,7 +109,7 @@ def classes_for(focus):
 EXPECT_VALID = {"prelude_valid", "valid", "valid_multi", "reward_exact_fees", "reward_minus1", "max_output", "ts_future_30",
                 "reward_split_exact"}
 # classes whose verdict depends on the sampled data (not asserted by the monitor, only compared)
-UNDETERMINED = {"ev_other_fork", "fees_wrong_state", "bad_curve_point"}
+UNDETERMINED = {"ev_other_fork", "fees_wrong_state"}
 
 
 def make_candidate(cr, klass, parent_hash, now_holder):
@@ -231,11 +231,15 @@ def make_candidate(cr, klass, parent_hash, now_holder):
         ins[rng.randrange(0, len(ins))] = Input(ins[0].output_reference, sig)
         return cr.craft(parent_hash, others=[Transaction(ins, tx.outputs)]), now
     if klass == "bad_curve_point":
-        garbage = [(r, o) for r, o in utxo.items() if o.public_key.public_key == b"\x05" * 64]
+        garbage = [(r, o) for r, o in utxo.items() if o.public_key.public_key in chain.GARBAGE_KEYS]
         if not garbage:
             return None
-        r, o = garbage[0]
-        bad = Transaction([Input(r, SECP256k1Signature(b"\x01" * 64))], [Output(o.value, keys.pk(0))])
+        r, o = rng.choice(garbage)
+        outs = [Output(o.value, keys.pk(0))]
+        unsigned = Transaction([Input(r, SignableEquivalent())], outs)
+        msg = unsigned.signable_equivalent().serialize()
+        sig = b"\x01" * 64 if rng.random() < 0.3 else chain.keyless_signature_for(msg, o.public_key.public_key)
+        bad = Transaction([Input(r, SECP256k1Signature(sig))], outs)
         return cr.craft(parent_hash, others=[bad]), now
     if klass == "intra_block_spend":
         tx = one_tx()
@@ -567,7 +571,7 @@ def run_ledger(ctx, focus, res=None):
             r, o = sp[0]
             if o.value > 10:
                 tx = chain.make_tx(keys, tree.utxo(tree.cs.current_chain_hash), [r],
-                                   [(o.value - 5, 0), (5, b"\x05" * 64)])
+                                   [(o.value - 10, 0), (5, chain.GARBAGE_KEYS[0]), (5, chain.GARBAGE_KEYS[1])])
                 tree.extend(txs=[tx])
         tree.grow(rng.randrange(4, 10), fork_prob=0.4)
         if cfg == 1:
